@@ -13,6 +13,7 @@ Nothing of the analysed crate is executed: what is evaluated are MIR terms over
 abstract inputs.  Anything outside the modelled construct set raises
 `Undecided` (fail closed).
 """
+import json
 import itertools
 from fractions import Fraction
 
@@ -349,6 +350,14 @@ SHIM_MAP = {
     '<usize as core::slice::SliceIndex<[T]>>::get': 'slice_get_usize',
     'core::slice::<impl [T]>::contains': 'slice_contains',
     'core::slice::<impl [T]>::binary_search_by': 'binary_search_by',
+}
+# provided `Iterator` methods (generic def path shared by every iterator) on a particular iterator type
+SHIM_MAP_SELF = {
+    ('core::iter::Iterator::any', 'core::array::IntoIter'): 'arr_iter_any',
+    ('core::iter::Iterator::all', 'core::array::IntoIter'): 'arr_iter_all',
+    ('core::iter::Iterator::find', 'core::array::IntoIter'): 'arr_iter_find',
+    ('core::iter::Iterator::find_map', 'core::array::IntoIter'): 'arr_iter_find_map',
+    ('core::iter::Iterator::position', 'core::array::IntoIter'): 'arr_iter_position',
 }
 _SHIM_FACTS = None
 import re as _re
@@ -1006,13 +1015,15 @@ class Engine:
         if idx >= len(fr.fn.get('promoted') or []):
             raise Undecided('promoted constant %d of %s was not extracted' % (idx, fr.fn.get('path')))
         body = fr.fn['promoted'][idx]
-        key = ('P', fr.fn.get('path_inst') or fr.fn['path'], idx)
+        key = ('P', fr.fn.get('path_inst') or fr.fn['path'], idx) if not fr.targs else \
+            ('P', fr.fn.get('path_inst') or fr.fn['path'], idx, json.dumps(fr.targs, sort_keys=True))
         if key in st.store:
             return st.store[key]
         # run the (straight-line) promoted body in a scratch frame
         pf = Frame()
         pf.uid = st.next_uid; st.next_uid += 1
         pf.fn, pf.body, pf.bb, pf.dest, pf.ret_to, pf.depth, pf.pc = fr.fn, body, 0, None, None, fr.depth + 1, 0
+        pf.targs = fr.targs
         pf.sub = 0
         bb = 0
         for _ in range(64):
@@ -1303,7 +1314,7 @@ class Engine:
             raise Undecided('indirect call', t['sp'])
         return fn
 
-    def run(self, fn_path, args=None, setup=None, arg_doms=None, arg_names=None):
+    def run(self, fn_path, args=None, setup=None, arg_doms=None, arg_names=None, targs=None):
         """Analyse function `fn_path`.
         args: optional list of prepared values (else fresh symbols per parameter type, named after
         the user variable).  setup(st, argvals) may adjust the initial state.  Returns list[Leaf]."""
@@ -1317,6 +1328,7 @@ class Engine:
         fr.uid = 0; fr.fn = f; fr.body = body; fr.bb = 0; fr.dest = None; fr.ret_to = None; fr.depth = 0
         fr.pc = 0
         fr.sub = 0
+        fr.targs = targs or getattr(prog, 'entry_targs', {}).get(fn_path)   # instance of a blanket impl analysed as an entry point
         self.full_doms = {}
         self.sym_counter = 0
         self.arg_doms = dict(arg_doms or {})
@@ -1330,7 +1342,7 @@ class Engine:
             if args is not None and i < len(args) and args[i] is not None:
                 v = args[i]
             else:
-                v = self.mk_sym(loc['ty'], name, st)
+                v = self.mk_sym(prog.subst_ty(loc['ty'], fr.targs) if fr.targs else loc['ty'], name, st)
             st.store[('L', 0, i + 1)] = v
             argvals.append(v)
         if setup:
@@ -1421,6 +1433,7 @@ class Engine:
         af.uid = st.next_uid; st.next_uid += 1
         af.fn = nf_.fn; af.body = nf_.body; af.bb = 0; af.pc = 0; af.sub = 0
         af.dest = None; af.ret_to = ('store', nf_.store_key); af.depth = fr.depth + 1
+        af.targs = fr.targs
         st.frames.append(af)
 
     def exec_term(self, t, k, st, fr, work, leaves):
@@ -1701,6 +1714,23 @@ class Engine:
                 return self.call_closure(selfty['path'] + ('\t' + selfty['inst'] if selfty.get('inst') else ''), cv, args, t, st, fr)
             if not (res is not None and res.get('kind') == 'item' and v is not None and v[0] == 'adt'):
                 raise Undecided('call of an unknown callable %s' % term_str(v), sp)
+        # ---- compiler-generated Clone of closures / tuples / arrays / fn pointers: a structural copy
+        if fn.get('trait') == 'core::clone::Clone' and fn.get('method') == 'clone' and res is not None and res.get('kind') == 'shim' \
+                and vals and vals[0] is not None and vals[0][0] == 'ref':
+            src = self.get_path(st.store.get(vals[0][1]), vals[0][2], st)
+
+            def plain(x):
+                if x is None:
+                    return False
+                if is_scalar(x) or x[0] in ('ref', 'fn'):
+                    return True
+                if x[0] == 'arr':
+                    return all(plain(y) for y in x[1])
+                if x[0] == 'adt' and (x[1] == '(tuple)' or x[1].startswith('(closure)')):
+                    return all(plain(y) for y in x[3])
+                return False
+            if plain(src):
+                return ret(src)
         # ---- dynamic dispatch: resolve through the concrete type recorded at the unsizing coercion
         if res is not None and res.get('kind') == 'virtual' and vals and vals[0] is not None and vals[0][0] == 'dyn':
             ri = prog.resolve_impl(fn.get('trait'), vals[0][2], fn.get('method'))
@@ -1786,7 +1816,11 @@ class Engine:
             target = path
         # ---- inlining of local callees (incl. closures) and of monomorphised library bodies
         callee = None
-        if target is None and path in SHIM_MAP and SHIM_MAP[path] in prog.shim_fns and path not in self.opaque:
+        skey = (path, res['args'][0].get('path')) if res is not None and res.get('args') and isinstance(res['args'][0], dict) else None
+        if target is None and skey in SHIM_MAP_SELF and SHIM_MAP_SELF[skey] in prog.shim_fns:
+            callee = prog.shim_fns[SHIM_MAP_SELF[skey]]
+            self.stats['shim_calls'] = self.stats.get('shim_calls', 0) + 1
+        elif target is None and path in SHIM_MAP and SHIM_MAP[path] in prog.shim_fns and path not in self.opaque:
             callee = prog.shim_fns[SHIM_MAP[path]]
             self.stats['shim_calls'] = self.stats.get('shim_calls', 0) + 1
         elif target is not None and target not in self.opaque:
